@@ -22,6 +22,7 @@ pub mod c19;
 pub mod c20;
 pub mod e2e;
 pub mod retry_e2e;
+pub mod session_e2e;
 pub mod smoke;
 
 pub fn dispatch(ctx: &Ctx) -> Option<Outcome> {
